@@ -118,6 +118,10 @@ type VC struct {
 	pendingTargs map[*types.TypeParam]types.Type
 	constSort map[string]string
 	abandonPath bool
+	usedLemmas map[string]bool
+	rangeAsserted map[string]bool
+	covers    []*Obligation
+	typeFacts []string // type invariants of heap values mentioned in specs (always true)
 }
 
 // frame: one (possibly inlined) function activation
